@@ -15,8 +15,7 @@
   * `C16_stepFive_total_indep_partial`   step 5 succeeds when, IN THE MAP BEFORE THE STEP, every edge is `EdgeOK` and the edges are
                                          pairwise `Indep`.  PARTIAL: independence is assumed (edges sharing a dart are covered, without
                                          intermediate points, by `C16_stepFive_total_partial`).
-  NOT proved: the same for steps 2–3 (the loop of `insert_intersections` over all edges: the kernel totality is here, the transport of
-  its hypotheses along that loop is not).
+  The loop of steps 2–3 (`insert_intersections` over all edges) is in Props/C16Steps23Total.lean.
 -/
 import Honeycomb.Props.C16Step5Total
 import Honeycomb.Props.C14d
